@@ -384,6 +384,8 @@ struct Outer {
     map: std::collections::HashMap<String, i32>,
     blob: Blob,
     text: Text,
+    pairs: Vec<(i32, String)>,
+    triple: (bool, u64, Text),
 }
 
 fn typed_rt<T: Form + RecognizerReadable + PartialEq + std::fmt::Debug>(w: &Watch, op: &str, t: &T) -> String {
@@ -477,6 +479,8 @@ fn typed_case(rng: &mut Rng, w: &Watch, t: &Tr) {
                 map: (0..rng.below(3)).map(|_| (rand_string(rng), rng.next() as i32)).collect(),
                 blob: Blob::from_vec((0..rng.below(7)).map(|_| rng.next() as u8).collect()),
                 text: Text::from(rand_string(rng)),
+                pairs: (0..rng.below(4)).map(|_| (rng.next() as i32, rand_string(rng))).collect(),
+                triple: (rng.chance(1, 2), rng.next(), Text::from(rand_string(rng))),
             };
             let op = format!("typed outer {}", hex(format!("{}", print_recon_compact(&v)).as_bytes()));
             let o = typed_rt(w, &op, &v);
